@@ -55,15 +55,16 @@ theorem isReal_sound (A : Alg R) (e : PExpr) (h : isReal e = true) : A.conj (eva
 
 /-! ## T2  a declaration accepted by `checkRow` is true -/
 
-/-- T2 (time reversal).  If the row `(f, v, tr, inv)` is accepted by the decision procedure then, in every
-    TR-symmetric model in which the structural axis symmetries listed in `tauFacts f v` hold, applying the DECLARED
-    `Transform` (permute axes, conjugate, multiply by the factor) to the value at k gives the value at -k. -/
-theorem declared_TR_sound (A : Alg R) (hA : TRSym A) (r : Row) (hrow : checkRow r = true)
-    (hfacts : ∀ t ∈ tauFacts r.f r.v, TauHolds A t (eval A (termOf r.f r.v))) :
-    applyDecl A r.tr (eval A (termOf r.f r.v)) = A.rev (eval A (termOf r.f r.v)) := by
-  unfold checkRow at hrow
-  have hs := grade_sound_TR_aux A hA (termOf r.f r.v)
-  cases hg : grade (termOf r.f r.v) with
+/-- T2 (time reversal), for an ARBITRARY expression `e` - in particular for whatever term the translator emitted from
+    the live source: every `PExpr` constructor is covered by `grade_sound_TR`, so if `checkRowTerm e r` accepts, then in
+    every TR-symmetric model in which the structural axis symmetries listed in `tauFacts r.f r.v` hold for ⟦e⟧, applying
+    the DECLARED `Transform` (permute axes, conjugate, multiply by the factor) to the value at k gives the value at -k. -/
+theorem declared_TR_sound_term (A : Alg R) (hA : TRSym A) (e : PExpr) (r : Row) (hrow : checkRowTerm e r = true)
+    (hfacts : ∀ t ∈ tauFacts r.f r.v, TauHolds A t (eval A e)) :
+    applyDecl A r.tr (eval A e) = A.rev (eval A e) := by
+  unfold checkRowTerm at hrow
+  have hs := grade_sound_TR_aux A hA e
+  cases hg : grade e with
   | bad => simp [hg] at hrow
   | zero =>
     rw [hg] at hs
@@ -73,15 +74,15 @@ theorem declared_TR_sound (A : Alg R) (hA : TRSym A) (r : Row) (hrow : checkRow 
   | val t i =>
     rw [hg] at hs
     simp only [hg, Bool.and_eq_true] at hrow
-    exact declOK_TR_sound_aux A t (isReal (termOf r.f r.v)) _ r.tr _ hs (isReal_sound_aux A _) hfacts hrow.1
+    exact declOK_TR_sound_aux A t (isReal e) _ r.tr _ hs (isReal_sound_aux A _) hfacts hrow.1
 
-/-- T2 (inversion). -/
-theorem declared_Inv_sound (A : Alg R) (hA : InvSym A) (r : Row) (hrow : checkRow r = true)
-    (hfacts : ∀ t ∈ tauFacts r.f r.v, TauHolds A t (eval A (termOf r.f r.v))) :
-    applyDecl A r.inv (eval A (termOf r.f r.v)) = A.rev (eval A (termOf r.f r.v)) := by
-  unfold checkRow at hrow
-  have hs := grade_sound_Inv_aux A hA (termOf r.f r.v)
-  cases hg : grade (termOf r.f r.v) with
+/-- T2 (inversion), for an arbitrary expression. -/
+theorem declared_Inv_sound_term (A : Alg R) (hA : InvSym A) (e : PExpr) (r : Row) (hrow : checkRowTerm e r = true)
+    (hfacts : ∀ t ∈ tauFacts r.f r.v, TauHolds A t (eval A e)) :
+    applyDecl A r.inv (eval A e) = A.rev (eval A e) := by
+  unfold checkRowTerm at hrow
+  have hs := grade_sound_Inv_aux A hA e
+  cases hg : grade e with
   | bad => simp [hg] at hrow
   | zero =>
     rw [hg] at hs
@@ -91,7 +92,33 @@ theorem declared_Inv_sound (A : Alg R) (hA : InvSym A) (r : Row) (hrow : checkRo
   | val t i =>
     rw [hg] at hs
     simp only [hg, Bool.and_eq_true] at hrow
-    exact declOK_Inv_sound_aux A i (isReal (termOf r.f r.v)) _ r.inv _ hs (isReal_sound_aux A _) hfacts hrow.2
+    exact declOK_Inv_sound_aux A i (isReal e) _ r.inv _ hs (isReal_sound_aux A _) hfacts hrow.2
+
+/-- T2 for the hand-written terms -/
+theorem declared_TR_sound (A : Alg R) (hA : TRSym A) (r : Row) (hrow : checkRow r = true)
+    (hfacts : ∀ t ∈ tauFacts r.f r.v, TauHolds A t (eval A (termOf r.f r.v))) :
+    applyDecl A r.tr (eval A (termOf r.f r.v)) = A.rev (eval A (termOf r.f r.v)) :=
+  declared_TR_sound_term A hA _ r hrow hfacts
+
+theorem declared_Inv_sound (A : Alg R) (hA : InvSym A) (r : Row) (hrow : checkRow r = true)
+    (hfacts : ∀ t ∈ tauFacts r.f r.v, TauHolds A t (eval A (termOf r.f r.v))) :
+    applyDecl A r.inv (eval A (termOf r.f r.v)) = A.rev (eval A (termOf r.f r.v)) :=
+  declared_Inv_sound_term A hA _ r hrow hfacts
+
+/-- T2 for the TRANSLATED table of a run (`translated_table_ok : checkAll table = true` in the generated file): for
+    every flagged line, the term translated from the live source has the grade of the hand-written term, and the
+    declared transform applied to its value at k is its value at -k in every TR-symmetric model. -/
+theorem translated_TR_sound (A : Alg R) (hA : TRSym A) (t : List (Row × PExpr × Bool)) (h : checkAll t = true)
+    (p : Row × PExpr × Bool) (hp : p ∈ t) (hflag : p.2.2 = true)
+    (hfacts : ∀ f ∈ tauFacts p.1.f p.1.v, TauHolds A f (eval A p.2.1)) :
+    applyDecl A p.1.tr (eval A p.2.1) = A.rev (eval A p.2.1) :=
+  declared_TR_sound_term A hA p.2.1 p.1 ((checkAll_spec t h p hp).2.2 hflag).1 hfacts
+
+theorem translated_Inv_sound (A : Alg R) (hA : InvSym A) (t : List (Row × PExpr × Bool)) (h : checkAll t = true)
+    (p : Row × PExpr × Bool) (hp : p ∈ t) (hflag : p.2.2 = true)
+    (hfacts : ∀ f ∈ tauFacts p.1.f p.1.v, TauHolds A f (eval A p.2.1)) :
+    applyDecl A p.1.inv (eval A p.2.1) = A.rev (eval A p.2.1) :=
+  declared_Inv_sound_term A hA p.2.1 p.1 ((checkAll_spec t h p hp).2.2 hflag).1 hfacts
 
 /-- the snapshot of the declared-transform table (all formula classes × variants, extracted from /repo when this
     file was written) passes the check; the live table is re-extracted and re-checked on every run -/
